@@ -687,6 +687,12 @@ func cmdCheck(args []string) int {
 			rr = rres[n]
 		}
 		engineOnly := p.h.Replay == "engine"
+		if rr != nil && rr.Panic != "" && (strings.Contains(rr.Panic, "wait already in progress") || strings.HasPrefix(rr.Panic, "verif:")) {
+			// a panic of the replay machinery itself (not of the code under test) proves nothing
+			// about the property: the replay counts as not reproduced
+			rr.Mismatch = "replay infrastructure panic: " + rr.Panic
+			rr.Panic = ""
+		}
 		switch p.kind {
 		case "cover":
 			ok := false
